@@ -98,6 +98,8 @@ def classify(ev, prefix):
     e = ev.get("ev")
     if e in ("Points", "EdgePoints"):
         return "delivery"
+    if e == "Holds":
+        return "holds"
     if e == "Quiescent":
         # which clause failed is not known here; C08's clause only matters when deliveries are owed
         owed = any('"k":"write' in x for x in prefix[-40:])
